@@ -8,6 +8,11 @@ use crate::props::c02::shape2;
 use ppp::v2::{Builder, TypeLengthValue};
 
 pub fn judge(x: &Vec<u8>, st: &mut Stats) -> Verdict {
+    // one case in eight is preceded by unrelated calls that fail on this thread (state left behind by a failed batch
+    // or a refused write must not leak into the next build)
+    if st.evals % 8 == 0 {
+        crate::bld::failing_calls_noise();
+    }
     let parsed = imp::v2_parse(x);
     let h = match &parsed {
         Ok(Ok(h)) => h,
